@@ -1,12 +1,17 @@
 #!/bin/bash
-# usage: tools/try_seed.sh <patch.diff> <ID> [extra check args]   -- apply to /repo, run check, revert
+# usage: tools/try_seed.sh <patch.diff> <ID> [extra check args]
+# apply the patch in a scratch worktree of /repo HEAD (never in /repo itself), run the check of <ID>
+# against it through VERIF_REPO, remove the worktree.  NOTE: this overwrites evidence/<ID>.json with a
+# run against the scratch tree; re-run the real check before committing evidence.
 P="$1"; ID="$2"; shift 2
-cd /repo || exit 2
-if ! git diff --quiet; then echo "repo dirty"; exit 2; fi
+WT=$(mktemp -d /tmp/tryseed.XXXXXX); rmdir "$WT"
+git -C /repo worktree add --detach "$WT" HEAD >/dev/null 2>&1 || { echo "cannot create worktree"; exit 2; }
+cleanup() { git -C /repo worktree remove --force "$WT" >/dev/null 2>&1; rm -rf "$WT"; }
+trap cleanup EXIT
+cd "$WT" || exit 2
 if ! git apply "$P" 2>/dev/null; then
-  if ! patch -p1 -s --no-backup-if-mismatch < "$P"; then echo "PATCH-DOES-NOT-APPLY"; git checkout -- .; exit 3; fi
+  if ! patch -p1 -s --no-backup-if-mismatch < "$P" >/dev/null 2>&1; then echo "PATCH-DOES-NOT-APPLY"; exit 3; fi
 fi
-cd /verif && ./check "$ID" --tier quick --no-shrink "$@" | grep -E "^check|signature|VIOLATION|HARNESS|KNOWN" | cut -c1-300
+cd /verif && VERIF_REPO="$WT" ./check "$ID" --tier quick --no-shrink "$@" | grep -E "^check|signature|VIOLATION|HARNESS|KNOWN" | cut -c1-300
 rc=${PIPESTATUS[0]}
-git -C /repo checkout -- . ; git -C /repo clean -fdq -- spydrnet
 echo "exit=$rc"
